@@ -1,4 +1,10 @@
 """C17 Shell quoting of paths and arguments is lossless (shape I, engine E3 + bash)."""
+import json
+import os
+import re
+
+from .. import common as C
+from .. import dedupelab as D
 from .. import unitcheck as U
 
 ID = "C17"
@@ -10,7 +16,7 @@ RULE = ("all strings of 1..L symbols over a 34-symbol alphabet (L=3 quick, 4 tho
         "<=1 symbol; all lists of <=3 one-symbol strings and all pairs of strings of <=2 symbols (pairs over the 20 "
         "core symbols in quick, all 34 in thorough); for every rendering fclones prints for a list - join (Arg::quote "
         "per argument), quote() and Path::quote() - fclones' split() and bash (run in a directory holding files that "
-        "unquoted glob characters would match) must return exactly the list. A case is non-trivial when quoting was "
+        "unquoted glob characters would match) must return exactly the list; and the lines the binary itself prints for trees with 32 hostile names: the `# Command:` line of the report (own splitter and bash must give back the arguments passed) and every line of the dry-run scripts of remove, link, link --soft, dedupe, move (same mount / loop-mounted other mount): both decoders agree and every path-like word is a path of the tree, a temporary sibling or its place under the target. A case is non-trivial when quoting was "
         "needed (style '..' or $'..'); distinct_nontrivial counts those strings/lists.")
 ASSUMPTIONS = ["bash 5 in non-interactive mode with HOME=/fcv-home-sentinel is the reference shell",
                "strings longer than the bound and the 'randomly for long strings' clause are not covered"]
@@ -19,6 +25,7 @@ SHARDS = 16
 
 def prepare(tier):
     U.build()
+    C.build_hooks()
 
 
 def cases(tier, seed):
@@ -27,10 +34,122 @@ def cases(tier, seed):
     out += [{"mode": "lists", "len": 2, "shard": "%d/%d" % (i, SHARDS), "alpha": "core" if tier == "quick" else "full"}
             for i in range(SHARDS)]
     out += [{"mode": "templates", "len": 1, "shard": "%d/%d" % (i, SHARDS)} for i in range(SHARDS)]
+    # what the binary really prints: the `# Command:` line of a report and every line of the dry-run scripts
+    from . import c02
+    for i, name in enumerate(c02.HOSTILE):
+        out.append({"mode": "scripts", "name": name, "index": i})
     return out
 
 
+TMP_RE = re.compile(r"\.[A-Za-z0-9]{24}$")
+
+
+def split_file(path):
+    rc, out, err, to = C.run([U.UNIT, "quote", "--split-file", path], cwd="/", env={"PATH": "/usr/bin:/bin", "LC_ALL": "C.UTF-8"},
+                             timeout=600)
+    if rc != 0 or to:
+        raise C.MachineryError("fcv-unit quote --split-file failed: %s" % err.decode("utf-8", "replace")[-500:])
+    lines = []
+    for l in out.decode("utf-8", "replace").splitlines():
+        j = json.loads(l)
+        if j.get("type") == "line":
+            lines.append(j)
+    return lines
+
+
+def evaluate_scripts(case):
+    """The lines the binary prints in shell-quoted form: the report's `# Command:` line and the dry-run scripts of
+    every dedupe command (move: same mount and, if possible, another mount known to fclones). Each line is decoded by
+    fclones' own splitter and by bash: both must give the same words, the command line must give back the arguments
+    that were passed, and every path-like word of a script must be a path of the tree, a temporary sibling of one, or
+    its place under the move target."""
+    from . import c02
+    viol = []
+    nlines = 0
+    name = case["name"]
+    feat0 = {"victim_name_class": c02.name_class(name)}
+    with C.Scratch() as sc:
+        roots, gargs, entries = c02.hostile_tree(name)
+        C.make_tree(sc.tree, entries)
+        # an argument that itself needs quoting travels in the command line as well
+        utf8 = not any(0xdc80 <= ord(ch) <= 0xdcff for ch in name)
+        extra_args = ["--name", "*"] + (["--exclude=" + name + "/zzz"] if utf8 else [])
+        roots = list(roots) + ["./d/" + name]    # the hostile name also travels as an input path
+        argv_group = ["group", "--min", "0"] + extra_args + roots
+        report = D.make_report(sc, ["--min", "0"] + extra_args, roots)
+        known = set()
+        for dp, dns, fns in os.walk(sc.tree):
+            known.add(dp)
+            for fn in fns:
+                known.add(os.path.join(dp, fn))
+        hdr = [l for l in report.split(b"\n") if l.startswith(b"# Command: ")]
+        if len(hdr) != 1:
+            raise C.MachineryError("no command line in the report header")
+        cmdfile = os.path.join(sc.root, "cmdline.txt")
+        with open(cmdfile, "wb") as f:
+            f.write(hdr[0][len(b"# Command: "):] + b"\n")
+        for j in split_file(cmdfile):
+            nlines += 1
+            exp = [C.b(C.FCLONES).hex()] + [C.b(a).hex() for a in argv_group]
+            for who in ("own", "bash"):
+                if j[who] != exp:
+                    viol.append(dict(feat0, kind="command_line_not_recovered", decoder=who, what="report_header",
+                                     detail="`# Command:` line %r decoded by %s to %s, arguments were %s" % (
+                                         j["text"], who, j[who] if j[who] is None else [bytes.fromhex(x) for x in j[who]], argv_group)))
+        target = os.path.join(sc.root, "moved")
+        ops = ["remove", "link", "softlink", "dedupe", "move"]
+        loop = None
+        if C.can_loop_mount():
+            ops.append("move_other_mount")
+        for op in ops:
+            tgt = target
+            try:
+                if op == "move_other_mount":
+                    loop = C.LoopMount(os.path.join(C.EXT4, "fcv.%d.c17loop" % os.getpid()))
+                    loop.__enter__()
+                    tgt = os.path.join(loop.mp, "moved")
+                r = D.run_dedupe(sc, "move" if op == "move_other_mount" else op, [], report, dry_run=True, target=tgt)
+            finally:
+                if loop:
+                    loop.__exit__()
+                    loop = None
+            if r["rc"] != 0:
+                viol.append(dict(feat0, kind="dry_run_failed", what=op, detail=r["err"][-300:]))
+                continue
+            sf = os.path.join(sc.root, "script.%s.sh" % op)
+            with open(sf, "wb") as f:
+                f.write(r["out"].encode("utf-8", "surrogateescape"))
+            for j in split_file(sf):
+                nlines += 1
+                feat = dict(feat0, what="script_" + op)
+                if j["own"] is None or j["bash"] is None:
+                    viol.append(dict(feat, kind="script_line_not_decodable", decoder="own" if j["own"] is None else "bash",
+                                     detail="line %r: own splitter %s (%s), bash %s" % (j["text"], j["own"], j["own_error"], j["bash"])))
+                    continue
+                if j["own"] != j["bash"]:
+                    viol.append(dict(feat, kind="script_line_decoders_disagree",
+                                     detail="line %r: own splitter %s, bash %s" % (
+                                         j["text"], [bytes.fromhex(x) for x in j["own"]], [bytes.fromhex(x) for x in j["bash"]])))
+                for hx in j["bash"][1:]:
+                    w = os.fsdecode(bytes.fromhex(hx))
+                    if not w.startswith("/"):
+                        continue
+                    ok = w in known or TMP_RE.sub("", w) in known
+                    if not ok and w.startswith(tgt):
+                        rest = "/" + os.path.normpath(w[len(tgt):]).lstrip("/")     # "<target>/./abs/path" names <target>/abs/path
+                        ok = rest in ("", "/") or rest in known or TMP_RE.sub("", rest) in known or any(k.startswith(rest.rstrip("/") + "/") for k in known)
+                    if not ok:
+                        viol.append(dict(feat, kind="script_names_unknown_path",
+                                         detail="line %r: bash sees the word %r, which is neither a path of the tree, a temporary "
+                                                "sibling, nor a place under the target" % (j["text"], w)))
+    return {"violations": viol, "evaluations": nlines, "counters": {"script_lines": nlines, "nontrivial": nlines},
+            "nontrivial": None, "outcome": "scripts_ok" if not viol else "scripts_violations",
+            "sample": {"case": case, "lines": nlines}}
+
+
 def evaluate(case):
+    if case.get("mode") == "scripts":
+        return evaluate_scripts(case)
     if "one" in case:
         viol, summ = U.run_unit(["quote", "--one", case["one"]])
     else:
@@ -64,7 +183,9 @@ def coverage_extra(stats, tier):
 def finish(stats, tier):
     c = stats.get("counters", {})
     out = []
-    if c.get("bash_checked", 0) != stats["evaluations"]:
+    if not c.get("script_lines"):
+        out.append("no line printed by the binary was decoded")
+    if c.get("bash_checked", 0) != stats["evaluations"] - c.get("script_lines", 0):
         out.append("not every list was cross-checked with bash")
     for k in ("style_dollar", "style_single", "style_bare"):
         if not c.get(k):
